@@ -54,6 +54,7 @@ func NewEngine() *Engine {
 		MaxPaths:   20000,
 		Trusted:    map[string]bool{},
 		Notes:      map[string]bool{},
+		AtCallHit:  map[string]bool{},
 		LockHook:   monitor{},
 		GhostFns:   map[string]*GhostFn{},
 	}
